@@ -193,11 +193,17 @@ skiplist_notify(struct skiplist *l, struct skiplist_node *n,
 		uint32_t event, char *key, void *old_value, void *value)
 {
 	struct qb_list_head *list;
+	struct qb_list_head *next;
 	struct qb_map_notifier *tn;
+	qb_map_notify_fn fn;
+	int32_t fn_events;
+	void *fn_data;
 
 	/* node callbacks
 	 */
-	qb_list_for_each(list, &n->notifier_head) {
+	/* a notifier may remove itself from inside its callback: nothing of
+	 * it is looked at afterwards */
+	qb_list_for_each_safe(list, next, &n->notifier_head) {
 		tn = qb_list_entry(list, struct qb_map_notifier, list);
 
 		if (tn->events & event) {
@@ -207,18 +213,20 @@ skiplist_notify(struct skiplist *l, struct skiplist_node *n,
 	}
 	/* global callbacks
 	 */
-	qb_list_for_each(list, &l->header->notifier_head) {
+	qb_list_for_each_safe(list, next, &l->header->notifier_head) {
 		tn = qb_list_entry(list, struct qb_map_notifier, list);
+		fn = tn->callback;
+		fn_events = tn->events;
+		fn_data = tn->user_data;
 
-		if (tn->events & event) {
-			tn->callback(event, key, old_value, value,
-				     tn->user_data);
+		if (fn_events & event) {
+			fn(event, key, old_value, value, fn_data);
 		}
 		if (((event & QB_MAP_NOTIFY_DELETED) ||
 		     (event & QB_MAP_NOTIFY_REPLACED)) &&
-		    (tn->events & QB_MAP_NOTIFY_FREE)) {
-			tn->callback(QB_MAP_NOTIFY_FREE, (char *)key,
-				     old_value, value, tn->user_data);
+		    (fn_events & QB_MAP_NOTIFY_FREE)) {
+			fn(QB_MAP_NOTIFY_FREE, (char *)key,
+			   old_value, value, fn_data);
 		}
 	}
 
